@@ -27,6 +27,8 @@ type G struct {
 	T *rapid.T
 	O Opts
 	n int
+	// wide / big collections generated so far (see size)
+	wide, big int
 }
 
 func New(t *rapid.T, o Opts) *G { return &G{T: t, O: o} }
@@ -43,11 +45,16 @@ func (g *G) Str(label string) string {
 
 func (g *G) intn(label string, lo, hi int) int { return rapid.IntRange(lo, hi).Draw(g.T, label) }
 
+// size draws a collection size. Wide (65-90) and big (9-20) collections are budgeted per generator
+// (2 and 8): nested wide collections would otherwise multiply into cases of a million draws, which
+// are slow to run and which rapid's shrinker cannot even start on (its pruning pass is quadratic).
 func (g *G) size(label string, small int) int {
-	if g.O.BigMaps && g.intn(label+"wide", 0, 39) == 0 {
+	if g.O.BigMaps && g.wide < 2 && g.intn(label+"wide", 0, 39) == 0 {
+		g.wide++
 		return g.intn(label+"wn", 65, 90)
 	}
-	if g.O.BigMaps && g.intn(label+"big", 0, 5) == 0 {
+	if g.O.BigMaps && g.big < 8 && g.intn(label+"big", 0, 5) == 0 {
+		g.big++
 		return g.intn(label+"n", 9, 20)
 	}
 	return g.intn(label, 0, small)
